@@ -25,7 +25,11 @@ from concurrent.futures import ThreadPoolExecutor
 import pv
 import diffrun
 
-ROUND = {"R": ["rlock", "runlock"], "W": ["wlock", "wunlock"], "r": ["rtry", "runlock"], "w": ["wtry", "wunlock"]}
+ROUND = {"R": ["rlock", "runlock"], "W": ["wlock", "wunlock"], "r": ["rtry", "runlock"], "w": ["wtry", "wunlock"],
+         # a trylock attempted WHILE the thread holds the lock (what trylock is for: it must answer at once, FALSE unless a second
+         # read hold is grantable): a = R[tryR]  b = R[tryW]  c = W[tryR]  d = W[tryW]
+         "a": ["rlock", "rtry", "runlock", "runlock"], "b": ["rlock", "wtry", "wunlock", "runlock"],
+         "c": ["wlock", "rtry", "runlock", "wunlock"], "d": ["wlock", "wtry", "wunlock", "wunlock"]}
 OPS = ["rlock", "wlock", "rtry", "wtry", "runlock", "wunlock"]
 WRAPS = ["rdlock", "tryrdlock", "wrlock", "trywrlock", "unlock", "init", "destroy"]
 
@@ -181,10 +185,36 @@ def exhaustive_mix(exe, codes):
 
 
 # --------------------------------------------------------------------------------------------
+# directed: many simultaneous readers (the counter fields are 15 bits wide: "any number of readers")
+
+def many_readers(exe, n, acq, seed, extra=()):
+    """n threads take the lock for reading (directed prefix: all hold at the same instant), a writer trylock must fail at
+    that moment; the rest (the writer's blocking wlock, the readers leaving in any order, spurious wake-ups) is scheduled by
+    the harness itself from `seed` and replayed on both sides.  A wrong grant shows as !UNSAFE, a lost wake-up as !DEADLOCK."""
+    progs = [[acq if not isinstance(acq, list) else acq[i % len(acq)], "runlock"] for i in range(n)] + [["wtry", "wunlock", "wlock", "wunlock"]]
+    pre = []
+    for i in range(n):
+        pre += ["run %d" % i] * 2
+    pre += ["twin"] + ["run %d" % n] * 2 + ["twin"]
+    case, verdict, rc, err = auto_schedule(exe, progs, seed, 40 * n + 200, 5, prefix=["null %s" % o for o in extra], middle=pre)
+    return case
+
+
+def side_ops_cases():
+    """NULL arguments and a second lock object at every kind of moment of a small run"""
+    progs = [prog_of("RW"), prog_of("Wr"), prog_of("bw")]
+    h = header(progs)
+    sched = ["run 0", "twin", "run 0", "run 1", "twin", "run 1", "twin", "run 2", "run 2", "run 2", "twin", "run 2", "run 0", "run 0", "twin", "run 2", "run 2", "run 2", "twin"]
+    return [["null %s" % o for o in OPS] + h + ["null %s" % o for o in OPS] + sched + ["null wunlock", "twin"],
+            h + ["twin", "run 2", "run 2", "twin", "run 2", "run 2", "twin", "null rtry"]]
+
+
+# --------------------------------------------------------------------------------------------
 # random: the harness schedules itself, the schedule is replayed on both sides
 
-def auto_schedule(exe, progs, seed, nsteps, spur_pct, nospec=False):
-    h = header(progs, nospec)
+def auto_schedule(exe, progs, seed, nsteps, spur_pct, nospec=False, prefix=(), middle=()):
+    """prefix: ops before the programs; middle: directed ops after `start`, before the harness takes over"""
+    h = list(prefix) + header(progs, nospec) + list(middle)
     text = "".join(l + "\n" for l in h) + "auto %d %d %d\n" % (seed, nsteps, spur_pct)
     rc, out, err = pv.run_proc([exe], text, 300)
     lines = out.splitlines()[len(h):]
@@ -200,12 +230,13 @@ def auto_schedule(exe, progs, seed, nsteps, spur_pct, nospec=False):
 def random_progs(rng, nthreads, max_rounds, disciplined=True):
     progs = []
     style = rng.choice(["mixed", "writer-heavy", "reader-heavy", "try-heavy"])
-    weights = {"mixed": [3, 3, 1, 1], "writer-heavy": [1, 6, 0, 1], "reader-heavy": [6, 1, 1, 0], "try-heavy": [1, 1, 3, 3]}[style]
+    weights = {"mixed": [3, 3, 1, 1, 1, 1, 1, 1], "writer-heavy": [1, 6, 0, 1, 0, 1, 1, 1], "reader-heavy": [6, 1, 1, 0, 2, 1, 0, 0],
+               "try-heavy": [1, 1, 3, 3, 2, 2, 2, 2]}[style]
     for _ in range(nthreads):
         n = rng.randrange(1, max_rounds + 1)
         if disciplined:
             p = []
-            for ch in rng.choices("RWrw", weights, k=n):
+            for ch in rng.choices("RWrwabcd", weights, k=n):
                 p += ROUND[ch]
         else:
             p = [rng.choice(OPS) for _ in range(2 * n)]
@@ -220,16 +251,19 @@ def posix_cases(rng, n):
     codes = [0, 0, 0, 16, 11, 22, 35, 1, -1, 110, 12, 2147483647, -2147483648]   # 0, EBUSY, EAGAIN, EINVAL, EDEADLK, EPERM ...
     cases = []
     for op in OPS:
-        cases.append(["call %s %d" % (op, c) for c in codes] + ["null " + op])
-    cases.append(["new %d" % c for c in codes])
+        cases.append(["call %s %d" % (op, c) for c in codes] + ["null " + op, "ident"])
+    cases.append(["new %d" % c for c in codes] + ["ident"])
+    cases.append(["ident", "ident"])
     for _ in range(n):
         c = []
         for _ in range(rng.randrange(5, 60)):
             r = rng.random()
             if r < 0.85:
                 c.append("call %s %d" % (rng.choice(OPS), rng.choice(codes + [rng.randrange(-200, 200)])))
-            elif r < 0.93:
+            elif r < 0.91:
                 c.append("null " + rng.choice(OPS))
+            elif r < 0.94:
+                c.append("ident")
             else:
                 c.append("new %d" % rng.choice(codes))
         cases.append(c)
@@ -248,16 +282,17 @@ def tsan_runs(chk, cfg, seeds, nthreads, rounds):
         except pv.BuildError as e:
             chk.violation(str(e), "C02 supporting real-thread harness (%s) does not build" % impl, no_input=True, suffix="txt")
             continue
-        for scen in ("rr", "share"):
-            # finite rounds with a writer queued between two read acquisitions: must run to completion
-            cmd = [exe, scen]
+        for scen in ("rr", "share", "two", "tryhold", "readers 200", "readers 33"):
+            # finite rounds with a writer queued between two read acquisitions: must run to completion;
+            # two independent lock objects; trylock against a real holder; many simultaneous readers
+            cmd = [exe] + scen.split()
             rc, out, err = pv.run_proc(cmd, "", 60, env={"TSAN_OPTIONS": "halt_on_error=1:exitcode=66"})
             res["runs"] += 1
             if rc == 0 and out.startswith("ok"):
                 res["ok"] += 1
             else:
                 chk.violation("cmd: rwlock_threads (%s implementation) %s\nstdout: %s\nstderr:\n%s" % (impl, scen, out, err[-2000:]),
-                              "C02 real-thread scenario `%s` (%s implementation): a finite set of lock/unlock rounds with a queued writer did not run to completion: %s"
+                              "C02 real-thread scenario `%s` (%s implementation): a finite scenario of lock / trylock / unlock calls did not run to completion as the property demands: %s"
                               % (scen, impl, (out or err).strip().splitlines()[0] if (out or err).strip() else "rc=%s" % rc), suffix="txt")
         for sd in seeds:
             cmd = [exe, str(nthreads), str(rounds), str(sd), "150"]
@@ -321,6 +356,10 @@ def run(chk):
                    ["Rr", "WW", "wR"], ["WR", "WR", "WR"]]
         mixlist += special + (all32 if thorough else all32[:150])
         mixlist += mixes(4, 1)
+        # trylock while holding (nested rounds a b c d)
+        nest3 = mixes(3, 1, "RWabcd")
+        rng.shuffle(nest3)
+        mixlist += mixes(2, 1, "RWrwabcd") + (nest3 if thorough else nest3[:20]) + [["aW", "Wb"], ["cd", "RW"], ["ab", "cd"], ["bR", "Wc", "a"]]
         if thorough:
             a42, a33 = mixes(4, 2), mixes(3, 3)
             rng.shuffle(a42)
@@ -352,12 +391,18 @@ def run(chk):
         chk.cov["transitions"] = st.transitions
         chk.cov["exhaustive_small_scope"] = {
             "program_mixes": st.mixes, "complete": st.truncated == 0,
-            "scope": "all round mixes (R W tryR tryW) of 1x2, 2x1, 2x2, 3x1 threads x rounds; %s 3x2 mixes%s; every reachable state with spurious wake-ups and every signal choice" % (
+            "scope": "all round mixes (R W tryR tryW) of 1x2, 2x1, 2x2, 3x1 threads x rounds; %s 3x2 mixes%s; nested rounds (a trylock while the thread holds: R[tryR] R[tryW] W[tryR] W[tryW]) "
+                     "2x1 all, 3x1 sample; every reachable state with spurious wake-ups and every signal choice" % (
                 "all 816" if thorough else "158 of the 816", "; all 4x1 mixes; 32 of the 4x2 and 61 of the 3x3 mixes" if thorough else "; all 4x1 mixes"),
             "states": st.states, "transitions": st.transitions, "covering_maximal_schedules_replayed_on_C": st.schedules,
             "steps_compared": st.steps, "model_deadlock_states": st.model_deadlocks, "seconds": round(time.time() - t0, 1)}
         # the number of distinct non-trivial cases of the exhaustive part = schedules (each is a different path)
-        f1, c1, t1 = diffrun.campaign(chk, fam, corpus + slow[:400], proof_ok, detail, signature_of, "C02", batch=1)
+        sizes = [(32, "rtry"), (40, "rtry"), (40, "rlock"), (64, ["rlock", "rtry"]), (70, ["rlock", "rtry", "rtry"]), (130, ["rtry", "rlock"])]
+        if thorough:
+            sizes += [(128, "rtry"), (256, "rtry"), (256, "rlock"), (257, ["rtry", "rlock"]), (300, "rtry")]
+        directed = side_ops_cases() + [many_readers(exe, n, acq, rng.randrange(1, 2**31), OPS if k == 0 else ()) for n, acq in sizes for k in range(2)]
+        chk.cov["directed"] = {"many_simultaneous_readers": [n for n, _ in sizes], "second_lock_object_and_NULL_argument_cases": 2}
+        f1, c1, t1 = diffrun.campaign(chk, fam, corpus + directed + slow[:400], proof_ok, detail, signature_of, "C02", batch=1)
         found, corr, thm = found or f1, corr or c1, thm or t1
     else:
         pv.log("model driver does not build: C-side search only")
@@ -418,7 +463,7 @@ def run(chk):
     chk.cov["exhaustive"] = False
     chk.assumptions += ["pthread mutex / condition variable satisfy POSIX (Mesa semantics: wait atomically releases the mutex, signal wakes at most one waiter, spurious wake-ups allowed); p_mutex_lock / p_cond_variable_wait on valid objects return TRUE",
                         "fewer than 2^15 threads use one lock simultaneously (field width of the packed counters; same limit in the C code)",
-                        "programs are disciplined: every acquired lock is released by the same thread before its next acquire; unlock only of a held lock; a failed trylock skips the unlock",
+                        "programs are disciplined: every acquired lock is released by the same thread before its next blocking acquire (a trylock may be attempted while holding); unlock only of a held lock; a failed trylock skips the unlock",
                         "allocation failure in p_rwlock_new is C18's business (note: the general model's p_rwlock_new continues after a failed sub-allocation: missing return NULL)",
                         "posix model: pthread_rwlock_* is a trusted abstract machine; only the return-code mapping of prwlock-posix.c is checked"]
     return finish(chk)
